@@ -1,11 +1,12 @@
 CHECK = {
+    "gen": [{"pkg": "extract_c09", "out": "lean/ClusterVerif/Gen/C09.lean"}],
     "suites": [
         suite("history", "c09", 8000, 80000, stdin=True),
         suite("monitor", "c09", 2000, 12000, stdin=True, args=["-suite", "monitor"]),
         suite("cadence", "c09", 0, 60, stdin=True, args=["-suite", "cadence"],
               timeout={"quick": 300, "thorough": 800}),
     ],
-    "lean_sources": ["ClusterVerif/Model/C09.lean", "ClusterVerif/Spec/C09.lean", "ClusterVerif/Lemmas/C09.lean"],
+    "lean_sources": ["ClusterVerif/Gen/C09.lean", "ClusterVerif/Model/C09.lean", "ClusterVerif/Spec/C09.lean", "ClusterVerif/Lemmas/C09.lean"],
     "rule": "history cases = (window capacity, accrual oracle forced true/false through the checker threshold or left to the real phi, "
             "initial peerset, 0-320 operations: arrivals with validity/expiry flags, RemovePeer, RemovePeerMetrics, peerset changes "
             "(known/none/failing), LatestMetrics queries, Watch ticks, CheckPeers calls with arbitrary lists) drawn from one splitmix64 "
@@ -23,8 +24,8 @@ META = {
     "text": "Kernel-checked theorems over an executable model of metrics.Window/Store/Checker and LatestMetrics: for every history of arrivals, "
             "removals, peerset changes, queries and failure checks (any window capacity > 0, any accrual oracle) the model's observations satisfy "
             "the safety clauses of the property (at most one metric per peer, the most recent, valid, unexpired, member; fresh never alerted; "
-            "never alerted twice without renewal; only reported stale metrics forgotten); the exactly-once clauses (across renewals and removals) under one explicit hypothesis (no CheckAll tick over a stored invalid metric), "
-            "with a proved counterexample when they are dropped; window wrap-around; publish-loop recurrences overlap for every TTL > 0. "
+            "never alerted twice without renewal; only reported stale metrics forgotten); and the exactly-once clauses (a covered stale metric is alerted by the check that finds it, forgotten by the next; across renewals, removals, both check kinds) with no hypothesis on the history; "
+            "the alert threshold and accrual constants are regenerated from the source (Gen/C09.lean); window wrap-around; publish-loop recurrences overlap for every TTL > 0. "
             "Tied to today's code by running the real Store/Checker/pubsubmon.Monitor on seeded histories and comparing every observation with the model "
             "and with the Lean property checker; cadence measured on the real loops with millisecond TTLs (corpus cases in quick, random cases in thorough).",
     "note": "Trusted: Lean kernel (+propext, Classical.choice, Quot.sound), the hand-written model/spec, the Go harness. The phi float arithmetic is an oracle.",
